@@ -1,1 +1,371 @@
-//! C01 harnesses.
+//! C01 — stream fidelity, producer side at appender level (regime R2: 256-byte term, separate small meta buffer).
+//! Oracle: the Aeron data frame layout written as literal offsets (0 length, 4 version, 5 flags, 6 type, 8 term offset,
+//! 12 session, 16 stream, 20 term id, 24 reserved value, 32 payload) and the closed-form frame placement.
+use super::util::*;
+use crate::concurrent::atomic_buffer::AtomicBuffer;
+use crate::concurrent::logbuffer::buffer_claim::BufferClaim;
+use crate::concurrent::logbuffer::exclusive_term_appender::ExclusiveTermAppender;
+use crate::concurrent::logbuffer::header::HeaderWriter;
+use crate::concurrent::logbuffer::term_appender::TermAppender;
+use crate::utils::errors::AeronError;
+
+pub const T: usize = 256;
+pub const PAYLOAD: i32 = 32; // MTU payload used for fragmentation at appender level
+
+pub fn supplier(_b: AtomicBuffer, off: i32, len: i32) -> i64 {
+    reserved_for(off, len)
+}
+pub fn reserved_for(off: i32, len: i32) -> i64 {
+    0x1122_3344_5566_7788 ^ ((off as i64) << 16) ^ len as i64
+}
+
+pub fn rd_i32(m: &[u8], at: usize) -> i32 {
+    i32::from_le_bytes([m[at], m[at + 1], m[at + 2], m[at + 3]])
+}
+pub fn rd_u16(m: &[u8], at: usize) -> u16 {
+    u16::from_le_bytes([m[at], m[at + 1]])
+}
+pub fn rd_i64(m: &[u8], at: usize) -> i64 {
+    i64::from_le_bytes([m[at], m[at + 1], m[at + 2], m[at + 3], m[at + 4], m[at + 5], m[at + 6], m[at + 7]])
+}
+
+pub struct Log {
+    pub term: Mem<T>,
+    pub before: [u8; T],
+    pub meta: Mem<32>,
+    pub hdr: Mem<32>,
+    pub term_id: i32,
+    pub session: i32,
+    pub stream: i32,
+}
+
+impl Log {
+    /// arbitrary prior term contents; partition 0's raw tail = (term_id, tail)
+    pub fn new(tail: i32) -> Log {
+        let content: [u8; T] = kani::any();
+        let (session, stream, term_id): (i32, i32, i32) = (kani::any(), kani::any(), kani::any());
+        let mut l = Log { term: Mem(content), before: content, meta: Mem::zeroed(), hdr: Mem::zeroed(), term_id, session, stream };
+        l.hdr.buf().put::<i32>(12, session);
+        l.hdr.buf().put::<i32>(16, stream);
+        l.meta.buf().put::<i64>(0, pack_tail(term_id, tail));
+        l
+    }
+    pub fn raw_tail(&mut self) -> i64 {
+        self.meta.buf().get::<i64>(0)
+    }
+    /// header of a committed frame at `off` is exactly what the protocol prescribes
+    pub fn frame_ok(&self, off: usize, frame_len: i32, ty: u16, flags: u8, reserved: Option<i64>) -> bool {
+        let m = &self.term.0;
+        rd_i32(m, off) == frame_len
+            && m[off + 4] == 0
+            && m[off + 5] == flags
+            && rd_u16(m, off + 6) == ty
+            && rd_i32(m, off + 8) == off as i32
+            && rd_i32(m, off + 12) == self.session
+            && rd_i32(m, off + 16) == self.stream
+            && rd_i32(m, off + 20) == self.term_id
+            && match reserved {
+                Some(r) => rd_i64(m, off + 24) == r,
+                None => true,
+            }
+    }
+    /// a symbolic byte outside [lo, hi) is unchanged
+    pub fn unchanged_outside(&self, lo: usize, hi: usize) -> bool {
+        let i: usize = kani::any();
+        kani::assume(i < T && (i < lo || i >= hi));
+        self.term.0[i] == self.before[i]
+    }
+}
+
+fn any_tail() -> i32 {
+    let slot: i32 = kani::any();
+    kani::assume((0..=10).contains(&slot)); // 0 ..= T+64, i.e. including tails that already overshot the term
+    slot * 32
+}
+
+fn any_len(max: i32) -> i32 {
+    let len: i32 = kani::any();
+    kani::assume((0..=max).contains(&len));
+    len
+}
+
+// A copy whose destination offset AND size are both symbolic costs > 10 M SAT variables even on a 256-byte term
+// (measured), so each instance makes one of them symbolic: `any_tail()` with a concrete length, or a concrete tail
+// with `any_len(64)`. Term id, session/stream ids, payload bytes and prior term contents are always symbolic.
+macro_rules! unfrag_step {
+    ($name:ident, $tail:expr, $len:expr) => {
+        #[kani::proof]
+        fn $name() {
+            pretouch();
+            let tail: i32 = $tail;
+            let mut l = Log::new(tail);
+            let mut src: [u8; 64] = kani::any();
+            let len: i32 = $len;
+            let hw = HeaderWriter::new(l.hdr.buf());
+            let a = TermAppender::new(l.term.buf(), l.meta.buf(), 0);
+            let r = a.append_unfragmented_message(&hw, &AtomicBuffer::new(src.as_mut_ptr(), 64), 0, len, supplier, l.term_id);
+            let aligned = align32(32 + len as i64) as i32;
+            let res = vok!(r, "C01: append with the matching term id returns a result");
+            assert!(l.raw_tail() == pack_tail(l.term_id, tail + aligned), "C01: raw tail advances by exactly the aligned frame length");
+            if tail + aligned <= T as i32 {
+                let off = tail as usize;
+                assert!(res == tail + aligned, "C01: resulting offset is the end of the frame");
+                assert!(l.frame_ok(off, 32 + len, 1, 0xC0, Some(reserved_for(tail, 32 + len))), "C01: committed frame header as prescribed (length, unfragmented flags, DATA, offsets, ids, reserved value)");
+                let j: usize = kani::any();
+                kani::assume(j < len as usize);
+                assert!(l.term.0[off + 32 + j] == src[j], "C01: payload byte-identical");
+                assert!(l.unchanged_outside(off, off + aligned as usize), "C01: nothing outside the claimed frame is written");
+            } else {
+                assert!(res == -2, "C01: end of term reports TERM_APPENDER_FAILED");
+                if tail < T as i32 {
+                    let off = tail as usize;
+                    assert!(l.frame_ok(off, T as i32 - tail, 0, 0xC0, None), "C01: exactly one padding frame fills the remainder of the term");
+                    assert!(l.unchanged_outside(off, off + 32), "C01: only the padding header is written at the end of the term");
+                } else {
+                    assert!(l.unchanged_outside(0, 0), "C01: a tail at or beyond the term end writes nothing");
+                }
+            }
+            kani::cover!(res > 0, "[must] accepted path");
+            kani::cover!(res == -2, "[must] end-of-term path");
+        }
+    };
+}
+// @verif tier=quick unwind=4
+unfrag_step!(c01_append_unfragmented_any_tail_len17, any_tail(), 17);
+// @verif tier=quick unwind=4
+unfrag_step!(c01_append_unfragmented_any_tail_len64, any_tail(), 64);
+// @verif tier=thorough unwind=4
+unfrag_step!(c01_append_unfragmented_any_tail_len0, any_tail(), 0);
+// @verif tier=thorough unwind=4
+unfrag_step!(c01_append_unfragmented_any_tail_len32, any_tail(), 32);
+// @verif tier=quick unwind=4
+unfrag_step!(c01_append_unfragmented_tail192_any_len, 192, any_len(64));
+// @verif tier=thorough unwind=4
+unfrag_step!(c01_append_unfragmented_tail0_any_len, 0, any_len(64));
+// @verif tier=thorough unwind=4
+unfrag_step!(c01_append_unfragmented_tail224_any_len, 224, any_len(64));
+
+/// A stale caller (active term id differs from the tail's term id) is refused and no frame is written.
+// @verif tier=quick unwind=4
+#[kani::proof]
+fn c01_append_stale_term_is_refused() {
+    pretouch();
+    let tail = any_tail();
+    let mut l = Log::new(tail);
+    let mut src: [u8; 64] = kani::any();
+    let len: i32 = 40;
+    let other: i32 = kani::any();
+    kani::assume(other != l.term_id);
+    let hw = HeaderWriter::new(l.hdr.buf());
+    let a = TermAppender::new(l.term.buf(), l.meta.buf(), 0);
+    let r = a.append_unfragmented_message(&hw, &AtomicBuffer::new(src.as_mut_ptr(), 64), 0, len, supplier, other);
+    assert!(r.is_err(), "C01: append with a stale term id must fail");
+    assert!(l.unchanged_outside(0, 0), "C01: a refused append writes nothing into the term");
+    std::mem::forget(r);
+}
+
+macro_rules! frag_step {
+    ($name:ident, $tail:expr, $len:expr) => {
+        #[kani::proof]
+        fn $name() {
+            pretouch();
+            let tail: i32 = $tail;
+            let mut l = Log::new(tail);
+            let mut src: [u8; 96] = kani::any();
+            let len: i32 = $len;
+            let hw = HeaderWriter::new(l.hdr.buf());
+            let a = TermAppender::new(l.term.buf(), l.meta.buf(), 0);
+            let r = a.append_fragmented_message(&hw, &AtomicBuffer::new(src.as_mut_ptr(), 96), 0, len, PAYLOAD, supplier, l.term_id);
+            let res = vok!(r, "C01: fragmented append with the matching term id returns a result");
+            let full = len / 32;
+            let rem = len % 32;
+            let n = full + if rem > 0 { 1 } else { 0 };
+            let required = full * 64 + if rem > 0 { align32(32 + rem as i64) as i32 } else { 0 };
+            assert!(l.raw_tail() == pack_tail(l.term_id, tail + required), "C01: raw tail advances by the sum of the aligned fragment lengths");
+            if tail + required <= T as i32 {
+                assert!(res == tail + required, "C01: resulting offset is the end of the last fragment");
+                let i: i32 = kani::any();
+                kani::assume(0 <= i && i < n);
+                let off = (tail + 64 * i) as usize;
+                let plen = if i < full { 32 } else { rem };
+                let flags: u8 = (if i == 0 { 0x80 } else { 0 }) | (if i == n - 1 { 0x40 } else { 0 });
+                assert!(l.frame_ok(off, 32 + plen, 1, flags, Some(reserved_for(off as i32, 32 + plen))), "C01: every fragment header as prescribed (BEGIN on first, END on last, DATA, ids, offsets)");
+                let j: usize = kani::any();
+                kani::assume(j < len as usize);
+                assert!(l.term.0[tail as usize + 64 * (j / 32) + 32 + j % 32] == src[j], "C01: fragmented payload byte-identical and in order");
+                assert!(l.unchanged_outside(tail as usize, (tail + required) as usize), "C01: nothing outside the claimed fragments is written");
+            } else {
+                assert!(res == -2, "C01: end of term reports TERM_APPENDER_FAILED");
+                assert!(l.frame_ok(tail as usize, T as i32 - tail, 0, 0xC0, None), "C01: exactly one padding frame fills the remainder of the term");
+                assert!(l.unchanged_outside(tail as usize, tail as usize + 32), "C01: a message that straddles the term end writes no data frame");
+            }
+            kani::cover!(res == -2 || res > 0, "[must] append returns");
+        }
+    };
+}
+// @verif tier=quick unwind=5
+frag_step!(c01_append_fragmented_tail0_len96_exact_multiple, 0, 96);
+// @verif tier=quick unwind=5
+frag_step!(c01_append_fragmented_tail96_len33, 96, 33);
+// @verif tier=thorough unwind=5
+frag_step!(c01_append_fragmented_tail64_len65, 64, 65);
+// @verif tier=thorough unwind=5
+frag_step!(c01_append_fragmented_tail128_len64_fills_term, 128, 64);
+// @verif tier=quick unwind=5
+frag_step!(c01_append_fragmented_tail160_len65_straddles, 160, 65);
+
+/// Exclusive appender: unfragmented step from any tail.
+// @verif tier=quick unwind=4
+#[kani::proof]
+fn c01_exclusive_append_unfragmented_step() {
+    pretouch();
+    let tail = any_tail();
+    kani::assume(tail <= T as i32); // the exclusive publication never calls with an offset beyond the term
+    let mut l = Log::new(tail);
+    let mut src: [u8; 64] = kani::any();
+    let len: i32 = 33;
+    let hw = HeaderWriter::new(l.hdr.buf());
+    let mut a = ExclusiveTermAppender::new(l.term.buf(), l.meta.buf(), 0);
+    let res = a.append_unfragmented_message(l.term_id, tail, &hw, AtomicBuffer::new(src.as_mut_ptr(), 64), 0, len, supplier);
+    let aligned = align32(32 + len as i64) as i32;
+    assert!(l.raw_tail() == pack_tail(l.term_id, tail + aligned), "C01: exclusive raw tail = (term id, tail + aligned length)");
+    if tail + aligned <= T as i32 {
+        let off = tail as usize;
+        assert!(res == tail + aligned, "C01: resulting offset is the end of the frame");
+        assert!(l.frame_ok(off, 32 + len, 1, 0xC0, Some(reserved_for(tail, 32 + len))), "C01: committed frame header as prescribed");
+        let j: usize = kani::any();
+        kani::assume(j < len as usize);
+        assert!(l.term.0[off + 32 + j] == src[j], "C01: payload byte-identical");
+        assert!(l.unchanged_outside(off, off + aligned as usize), "C01: nothing outside the claimed frame is written");
+    } else {
+        assert!(res == -2, "C01: end of term reports TERM_APPENDER_FAILED");
+        if tail < T as i32 {
+            assert!(l.frame_ok(tail as usize, T as i32 - tail, 0, 0xC0, None), "C01: exactly one padding frame fills the remainder of the term");
+            assert!(l.unchanged_outside(tail as usize, tail as usize + 32), "C01: only the padding header is written");
+        } else {
+            assert!(l.unchanged_outside(0, 0), "C01: a full term is not written");
+        }
+    }
+}
+
+macro_rules! excl_frag_step {
+    ($name:ident, $tail:expr, $len:expr) => {
+        #[kani::proof]
+        fn $name() {
+            pretouch();
+            let tail: i32 = $tail;
+            let mut l = Log::new(tail);
+            let mut src: [u8; 96] = kani::any();
+            let len: i32 = $len;
+            let hw = HeaderWriter::new(l.hdr.buf());
+            let mut a = ExclusiveTermAppender::new(l.term.buf(), l.meta.buf(), 0);
+            let res = a.append_fragmented_message(l.term_id, tail, &hw, AtomicBuffer::new(src.as_mut_ptr(), 96), 0, len, PAYLOAD, supplier);
+            let full = len / 32;
+            let rem = len % 32;
+            let n = full + if rem > 0 { 1 } else { 0 };
+            let required = full * 64 + if rem > 0 { align32(32 + rem as i64) as i32 } else { 0 };
+            assert!(l.raw_tail() == pack_tail(l.term_id, tail + required), "C01: exclusive raw tail advances by the sum of the aligned fragment lengths");
+            if tail + required <= T as i32 {
+                assert!(res == tail + required, "C01: resulting offset is the end of the last fragment");
+                let i: i32 = kani::any();
+                kani::assume(0 <= i && i < n);
+                let off = (tail + 64 * i) as usize;
+                let plen = if i < full { 32 } else { rem };
+                let flags: u8 = (if i == 0 { 0x80 } else { 0 }) | (if i == n - 1 { 0x40 } else { 0 });
+                assert!(l.frame_ok(off, 32 + plen, 1, flags, Some(reserved_for(off as i32, 32 + plen))), "C01: every fragment header as prescribed");
+                let j: usize = kani::any();
+                kani::assume(j < len as usize);
+                assert!(l.term.0[tail as usize + 64 * (j / 32) + 32 + j % 32] == src[j], "C01: fragmented payload byte-identical and in order");
+                assert!(l.unchanged_outside(tail as usize, (tail + required) as usize), "C01: nothing outside the claimed fragments is written");
+            } else {
+                assert!(res == -2, "C01: end of term reports TERM_APPENDER_FAILED");
+                assert!(l.frame_ok(tail as usize, T as i32 - tail, 0, 0xC0, None), "C01: exactly one padding frame fills the remainder of the term");
+                assert!(l.unchanged_outside(tail as usize, tail as usize + 32), "C01: a message that straddles the term end writes no data frame");
+            }
+        }
+    };
+}
+// @verif tier=quick unwind=5
+excl_frag_step!(c01_exclusive_append_fragmented_tail32_len70, 32, 70);
+// @verif tier=thorough unwind=5
+excl_frag_step!(c01_exclusive_append_fragmented_tail128_len96_straddles, 128, 96);
+// @verif tier=thorough unwind=5
+excl_frag_step!(c01_exclusive_append_fragmented_tail64_len96, 64, 96);
+
+/// claim -> (write) -> commit / abort, shared appender.
+// @verif tier=quick unwind=4
+#[kani::proof]
+fn c01_claim_commit_abort() {
+    pretouch();
+    let tail = any_tail();
+    let mut l = Log::new(tail);
+    let len: i32 = kani::any();
+    kani::assume((0..=64).contains(&len));
+    let hw = HeaderWriter::new(l.hdr.buf());
+    let a = TermAppender::new(l.term.buf(), l.meta.buf(), 0);
+    let mut claim = BufferClaim::default();
+    let r = a.claim(&hw, len, &mut claim, l.term_id);
+    let res = vok!(r, "C01: claim with the matching term id returns a result");
+    let aligned = align32(32 + len as i64) as i32;
+    assert!(l.raw_tail() == pack_tail(l.term_id, tail + aligned), "C01: claim advances the raw tail by the aligned frame length");
+    if tail + aligned <= T as i32 {
+        let off = tail as usize;
+        assert!(res == tail + aligned, "C01: claim returns the end of the claimed frame");
+        assert!(rd_i32(&l.term.0, off) == -(32 + len), "C01: a claimed frame stays uncommitted (negative length) until commit");
+        assert!(claim.length() == len && claim.offset() == 32, "C01: the claim exposes exactly the payload range");
+        assert!(claim.buffer().buffer() as usize == l.term.0.as_ptr() as usize + off, "C01: the claim is located at the claimed frame");
+        let fill: u8 = kani::any();
+        let j: usize = kani::any();
+        kani::assume(j < len as usize);
+        claim.buffer().put::<u8>(32 + j as i32, fill);
+        let abort: bool = kani::any();
+        if abort {
+            claim.abort();
+            assert!(l.frame_ok(off, 32 + len, 0, 0xC0, None), "C01: an aborted claim becomes a padding frame of the same length");
+        } else {
+            claim.commit();
+            assert!(l.frame_ok(off, 32 + len, 1, 0xC0, None), "C01: a committed claim is a DATA frame with the claimed length");
+            assert!(l.term.0[off + 32 + j] == fill, "C01: bytes written through the claim are the payload");
+        }
+        assert!(l.unchanged_outside(off, off + aligned as usize), "C01: nothing outside the claimed frame is written");
+    } else {
+        assert!(res == -2, "C01: end of term reports TERM_APPENDER_FAILED");
+        if tail < T as i32 {
+            assert!(l.frame_ok(tail as usize, T as i32 - tail, 0, 0xC0, None), "C01: exactly one padding frame fills the remainder of the term");
+        }
+    }
+}
+
+/// claim -> commit / abort, exclusive appender.
+// @verif tier=quick unwind=4
+#[kani::proof]
+fn c01_exclusive_claim_commit_abort() {
+    pretouch();
+    let tail = any_tail();
+    kani::assume(tail <= T as i32);
+    let mut l = Log::new(tail);
+    let len: i32 = kani::any();
+    kani::assume((0..=64).contains(&len));
+    let hw = HeaderWriter::new(l.hdr.buf());
+    let mut a = ExclusiveTermAppender::new(l.term.buf(), l.meta.buf(), 0);
+    let mut claim = BufferClaim::default();
+    let res = a.claim(l.term_id, tail, &hw, len, &mut claim);
+    let aligned = align32(32 + len as i64) as i32;
+    assert!(l.raw_tail() == pack_tail(l.term_id, tail + aligned), "C01: exclusive claim sets the raw tail to the end of the claimed frame");
+    if tail + aligned <= T as i32 {
+        let off = tail as usize;
+        assert!(res == tail + aligned, "C01: claim returns the end of the claimed frame");
+        assert!(rd_i32(&l.term.0, off) == -(32 + len), "C01: a claimed frame stays uncommitted until commit");
+        assert!(claim.length() == len, "C01: the claim exposes exactly the payload range");
+        if kani::any() {
+            claim.abort();
+            assert!(l.frame_ok(off, 32 + len, 0, 0xC0, None), "C01: an aborted claim becomes a padding frame of the same length");
+        } else {
+            claim.commit();
+            assert!(l.frame_ok(off, 32 + len, 1, 0xC0, None), "C01: a committed claim is a DATA frame with the claimed length");
+        }
+        assert!(l.unchanged_outside(off, off + aligned as usize), "C01: nothing outside the claimed frame is written");
+    } else {
+        assert!(res == -2, "C01: end of term reports TERM_APPENDER_FAILED");
+    }
+}
